@@ -405,6 +405,7 @@ func runC06(c *core.Ctx) {
 	if c.Expired() {
 		c.CapHit("collection sweep: wall budget reached")
 	}
+	c06IndexHistories(c)
 }
 
 func c06Structure(c *core.Ctx, ci int, co c06Coll, shapes []s2.Shape, refs [][]*refmodel.Loop, flips []bool, dump s2.VerifIndexState) {
